@@ -80,9 +80,6 @@ def sections(line):
 
 def check(run, replay=None):
     coq_ok = C.standard_coq_phase(run, CID, gens=["engines"])
-    # the refuted statement of the known finding (informational: compiled, failure is not a violation)
-    okr, logr = C.coq_make(["theories/Refuted_C17.vo"])
-    run.coverage["refuted_known_finding_still_machine_checked"] = bool(okr)
     ok, msg = C.ensure_ocaml()
     if not ok:
         run.finding("build:ocaml", "broken-obligation", msg, {})
@@ -126,10 +123,7 @@ def check(run, replay=None):
             if want is None:
                 continue
             if vals != want:
-                if name == "BandR" and L == 0 and U == 0 and (sname in ("T", "F") or sname.startswith("TU")):
-                    key = "diagmatrix-transpose"
-                else:
-                    key = "dense:%s:%s" % (name, re.sub(r"[-0-9_]+$", "", sname))
+                key = "dense:%s:%s" % (name, re.sub(r"[-0-9_]+$", "", sname))
                 run.finding(key, "counterexample",
                             "%s(L=%d,U=%d) of size %d: section %s gives %s but the dense equivalent is %s" % (name, L, U, n, sname, " ".join(vals)[:160], " ".join(want)[:160]),
                             {"config": head, "section": sname, "impl": vals, "dense": want})
